@@ -174,53 +174,52 @@ new_child_node(struct trie *t, struct trie_node * parent, char ch)
 static struct trie_node *
 trie_node_split(struct trie *t, struct trie_node *cur_node, int seg_cnt)
 {
-	struct trie_node *split_node;
-	struct trie_node ** children = cur_node->children;
-	uint32_t num_children = cur_node->num_children;
-	struct qb_list_head *tmp;
+	struct trie_node *parent = cur_node->parent;
+	struct trie_node *upper;
+	int idx = TRIE_CHAR2INDEX(cur_node->segment[seg_cnt]);
 	int i;
-	int s;
 
-	cur_node->children = NULL;
-	cur_node->num_children = 0;
-	split_node = new_child_node(t, cur_node, cur_node->segment[seg_cnt]);
-	if (split_node == NULL) {
+	/*
+	 * The part of the segment in front of the split point gets a node
+	 * of its own, which takes the place of cur_node under its parent.
+	 * cur_node moves one level down together with its entry, its
+	 * references, its notifiers and its children, so that iterators
+	 * positioned on it stay on the entry they have returned.
+	 */
+	upper = trie_new_node(t, parent);
+	if (upper == NULL) {
 		return NULL;
 	}
-	split_node->children = children;
-	split_node->num_children = num_children;
-	for (i = 0; i < split_node->num_children; i++) {
-		if (split_node->children[i]) {
-			split_node->children[i]->parent = split_node;
-		}
+	upper->num_children = QB_MAX(idx + 1, 30);
+	upper->children = calloc(upper->num_children,
+				 sizeof(struct trie_node *));
+	if (seg_cnt > 0) {
+		upper->segment = malloc(seg_cnt * sizeof(char));
 	}
-	split_node->value = cur_node->value;
-	split_node->key = cur_node->key;
-	split_node->refcount = cur_node->refcount;
-	cur_node->value = NULL;
-	cur_node->key = NULL;
-	cur_node->refcount = 0;
-	/* move notifier list to split */
-	tmp = split_node->notifier_head;
-	split_node->notifier_head = cur_node->notifier_head;
-	cur_node->notifier_head = tmp;
-	qb_list_init(cur_node->notifier_head);
+	if (upper->children == NULL ||
+	    (seg_cnt > 0 && upper->segment == NULL)) {
+		trie_destroy_node(upper);
+		t->num_nodes--;
+		t->mem_used -= sizeof(struct trie_node);
+		return NULL;
+	}
+	t->mem_used += (sizeof(struct trie_node *) * upper->num_children);
+	for (i = 0; i < seg_cnt; i++) {
+		upper->segment[i] = cur_node->segment[i];
+	}
+	upper->num_segments = seg_cnt;
+	upper->idx = cur_node->idx;
+	parent->children[upper->idx] = upper;
 
-	if (seg_cnt < cur_node->num_segments) {
-		split_node->num_segments = cur_node->num_segments - seg_cnt - 1;
-		split_node->segment = malloc(split_node->num_segments * sizeof(char));
-		if (split_node->segment == NULL) {
-			trie_destroy_node(split_node);
-			return NULL;
-		}
-		for (i = (seg_cnt + 1); i < cur_node->num_segments; i++) {
-			s = i - seg_cnt - 1;
-			split_node->segment[s] = cur_node->segment[i];
-			cur_node->segment[i] = '\0';
-		}
-		cur_node->num_segments = seg_cnt;
+	upper->children[idx] = cur_node;
+	cur_node->parent = upper;
+	cur_node->idx = idx;
+	for (i = seg_cnt + 1; i < cur_node->num_segments; i++) {
+		cur_node->segment[i - seg_cnt - 1] = cur_node->segment[i];
 	}
-	return cur_node;
+	cur_node->num_segments -= (seg_cnt + 1);
+
+	return upper;
 }
 
 static struct trie_node *
